@@ -422,6 +422,9 @@ impl WireEngine {
             if twin {
                 k = k.twinned();
             }
+            if matches!(self.profile, Profile::C04 | Profile::C06) && ctx.chance(1, 40) {
+                k.big_body = true;
+            }
             if self.profile == Profile::C07 {
                 // heavy-tailed lengths, up to ~100 kB
                 k.max_str = ctx.with_tape(|t| *t.pick(&[8u64, 64, 300, 300, 3000, 30000, 100_000]));
@@ -609,6 +612,10 @@ impl WireEngine {
             });
             ctx.sig(&meta.name);
             st.sh.handler.script(ep, ret.clone_box());
+            if self.profile == Profile::C09 && faults_on && ncalls == 1 && ctx.chance(1, 10) {
+                // the handler itself refuses and reports a non-safe value back as an unsafe parameter
+                st.sh.handler.refuse_next(ep, format!("rejected {}", st.knobs.alpha));
+            }
             let token_debug = args.iter().find(|a| a.name == "auth_").map(|a| {
                 let t: &conjure_object::BearerToken = a.get();
                 (t.as_str().to_string(), format!("{:?}", t))
